@@ -135,6 +135,15 @@ def main():
         r['flushed'] = observe(m, qs, heavy=False)
         r['copy'] = observe(c0, qs)
         r['copy_after'] = observe(m.copy(), qs, heavy=False)
+        # same observables asked in the opposite order on a fresh copy (first-call order must not matter)
+        c1 = c0.copy()
+        rev = {}
+        for k_, f_ in (('smiles_atoms_order', lambda: c1.smiles_atoms_order), ('fmt_h', lambda: format(c1, 'h')), ('str', lambda: str(c1)), ('atoms_order', lambda: c1.atoms_order)):
+            try:
+                rev[k_] = dg(norm(f_()))
+            except Exception as e:
+                rev[k_] = 'EXC ' + type(e).__name__
+        r['reversed_order'] = rev
         r['norm'] = normalised(m)
         out[key] = r
     json.dump(out, sys.stdout)
